@@ -188,16 +188,19 @@ def scanF (s : List UInt8) : Option (Bool × Subject × Nat) :=
   | none => none
   | some (sub, n) => some (neg, sub, ws.length + nsign + n)
 
+/-- conversion of what the subject sequence denotes to `double`: (datum, errno left by the call);
+    overflow gives ±inf with ERANGE, a tiny inexact result gives ERANGE -/
+def toDouble (neg : Bool) : Subject → Fl × Errno
+  | .inf => (.inf neg, .ok)
+  | .nan => (.nan, .ok)
+  | .num q =>
+    let (v, ovf, tiny) := roundTo binary64 neg q
+    (v, if ovf ∨ tiny then .erange else .ok)
+
 /-- `strtod(s, &end)`: (value as binary64 datum, `end - s`, errno left by the call) -/
 def strtod (s : List UInt8) : Result Fl :=
   match scanF s with
   | none => { val := .fin false 0, endOff := 0, errno := .ok }
-  | some (neg, sub, endOff) =>
-    match sub with
-    | .inf => { val := .inf neg, endOff, errno := .ok }
-    | .nan => { val := .nan, endOff, errno := .ok }
-    | .num q =>
-      let (v, ovf, tiny) := roundTo binary64 neg q
-      { val := v, endOff, errno := if ovf ∨ tiny then .erange else .ok }
+  | some (neg, sub, endOff) => { val := (toDouble neg sub).1, endOff, errno := (toDouble neg sub).2 }
 
 end Percival.Model.Strtod
